@@ -10,13 +10,15 @@ import Sonic.Proofs.NumberBig
 
 `NumberFacts` bundles what the parser proofs need to know about `Model.Number.parseNumber` (property C04), in the form
 in which it is used here; `numberOK_of_facts` derives the per-input contract `NumberOK bs` (`Proofs/ParseInv.lean`) from
-it for every text whose number tokens have a written exponent below 100000 in magnitude *or* are at most 9600 bytes
-long (`ExpSmall`; known finding F6 needs a longer token: in a short one a larger exponent saturates both `int exp`
-accumulators in `[10000, 99999]`, which still puts the value outside the binary64 range on the correct side).  In
-particular `ExpSmall` holds for every text of at most 9600 bytes (`expSmall_of_short`).
+it for every text shorter than `2^32` bytes (`numberOK_all`).  Known finding F6 (the `int exp` accumulators of
+`parseNumber` / `SetDecimal` saturating at 100000) has been FIXED in the code: the accumulators are 64 bits wide and
+saturate at `10^15`, the sums with the digit counts are clamped (`exp10` to `±100000`, `dp` to `±10^6`), and a
+saturated exponent cannot be compensated by fewer than `2^32` digits.  The former guard `ExpSmall` (written exponent
+below 100000 or token of at most 9600 bytes) is kept as a definition (`numberOK_of_exp`, `expSmall_of_short`,
+`expSmallCheck` still hold) but no theorem needs it any more.
 
-* (a) `correct`: on every buffer, where the reference finds a token `t` that ends inside the input, has a small
-  written exponent (or is at most 9600 bytes long) and satisfies `nativeGuard` (not followed by `.` after a fraction / by a digit after a lone `0`, when
+* (a) `correct`: on every buffer, where the reference finds a token `t` that ends inside the input, is shorter than
+  `2^32` bytes (or has a written exponent below `10^16`) and satisfies `nativeGuard` (not followed by `.` after a fraction / by a digit after a lone `0`, when
   there is no exponent part), `parseNumber` agrees with the reference: kind, value, end index, `infinity`.
 * (b) `malformed`: where the reference finds no token, `parseNumber` reports `kParseErrorInvalidChar`
   (this is `Props/C04.lean`: `C04_scan_grammar`).
@@ -58,10 +60,28 @@ theorem expSmall_of_check (bs : List Nat) (h : expSmallCheck bs = true) : ExpSma
     rw [h0] at ht
     cases ht
 
+/-- what the number theorems really need of every token: a written exponent below `10^16` in magnitude (then the
+    64-bit accumulator is exact) or fewer than `2^32` bytes (then a saturated exponent cannot be compensated) -/
+def ExpOK (bs : List Nat) : Prop :=
+  ∀ start t, scanToken (bs.drop start) = some t → (expVal t.exp).natAbs < 10000000000000000 ∨ t.len < 2 ^ 32
+
+theorem expOK_of_small {bs : List Nat} (h : ExpSmall bs) : ExpOK bs := by
+  intro start t ht
+  rcases h start t ht with h1 | h1
+  · left; omega
+  · right; omega
+
+theorem expOK_of_length {bs : List Nat} (h : bs.length < 2 ^ 32) : ExpOK bs := by
+  intro start t ht
+  right
+  have := Sonic.Proofs.NumberAll.token_len_le _ t ht
+  rw [List.length_drop] at this
+  omega
+
 /-- the facts about `parseNumber` that the parser needs (see the header) -/
 structure NumberFacts : Prop where
   correct : ∀ (buf : List Nat) (len start : Nat) (t : Token), scanToken (buf.drop start) = some t →
-    start + t.len ≤ len → ((expVal t.exp).natAbs < 100000 ∨ t.len ≤ 9600) →
+    start + t.len ≤ len → ((expVal t.exp).natAbs < 10000000000000000 ∨ t.len < 2 ^ 32) →
     nativeGuard t ((buf.drop start).drop t.len) = true →
     NumAgrees start len (scanNumber buf start) (numOut (Sonic.Model.Number.parseNumber buf len start))
   malformed : ∀ (buf : List Nat) (len start : Nat), scanToken (buf.drop start) = none →
@@ -97,7 +117,7 @@ theorem parseNumber_padIndep (bs pad pad' buf buf' : List Nat) (start : Nat) (hs
 /-- `NumberFacts` from the two facts that are not yet available as theorems -/
 theorem NumberFacts.of_ac
     (correct : ∀ (buf : List Nat) (len start : Nat) (t : Token), scanToken (buf.drop start) = some t →
-      start + t.len ≤ len → ((expVal t.exp).natAbs < 100000 ∨ t.len ≤ 9600) →
+      start + t.len ≤ len → ((expVal t.exp).natAbs < 10000000000000000 ∨ t.len < 2 ^ 32) →
     nativeGuard t ((buf.drop start).drop t.len) = true →
       NumAgrees start len (scanNumber buf start) (numOut (Sonic.Model.Number.parseNumber buf len start)))
     (doomed : ∀ (buf : List Nat) (len start : Nat) (t : Token), scanToken (buf.drop start) = some t →
@@ -108,7 +128,7 @@ theorem NumberFacts.of_ac
 /-- `NumberFacts` from the three facts (a), (c), (d) -/
 theorem NumberFacts.of_abc
     (correct : ∀ (buf : List Nat) (len start : Nat) (t : Token), scanToken (buf.drop start) = some t →
-      start + t.len ≤ len → ((expVal t.exp).natAbs < 100000 ∨ t.len ≤ 9600) →
+      start + t.len ≤ len → ((expVal t.exp).natAbs < 10000000000000000 ∨ t.len < 2 ^ 32) →
     nativeGuard t ((buf.drop start).drop t.len) = true →
       NumAgrees start len (scanNumber buf start) (numOut (Sonic.Model.Number.parseNumber buf len start)))
     (doomed : ∀ (buf : List Nat) (len start : Nat) (t : Token), scanToken (buf.drop start) = some t →
@@ -135,8 +155,8 @@ theorem scanNumber_padded (bs pad : List Nat) {start : Nat} (hs : start ≤ bs.l
   unfold scanNumber
   rw [scanToken_padded bs pad hs]
 
-/-- **`NumberOK` holds for every text with small written exponents or short number tokens** -/
-theorem numberOK_of_facts (facts : NumberFacts) {bs : List Nat} (hexp : ExpSmall bs) : NumberOK bs := by
+/-- **`NumberOK` holds for every text whose tokens satisfy `ExpOK`** -/
+theorem numberOK_of_facts (facts : NumberFacts) {bs : List Nat} (hexp : ExpOK bs) : NumberOK bs := by
   intro start c hs hc hn
   let pad0 : List Nat := List.replicate 61 0
   have hp0 : pad0.length = 61 := List.length_replicate ..
@@ -191,12 +211,12 @@ theorem numberOK_of_facts (facts : NumberFacts) {bs : List Nat} (hexp : ExpSmall
       · exact Or.inl h46
       · exact Or.inr hdig
 
-/-- **the facts hold**: (a) `NumberAll.parseNumber_correct'` (= `C04_parseNumber_correct'`), (b) `accumulate_spec`,
+/-- **the facts hold**: (a) `NumberAll.parseNumber_correct` (= `C04_parseNumber_correct`), (b) `accumulate_spec`,
     (c) `NumberAll.parseNumber_shape` (= `C04_parseNumber_shape`, with `C04_native_never_faults`), (d)
     `NumberPad.parseNumber_sim` -/
 theorem numberFacts : NumberFacts :=
   NumberFacts.of_ac
-    (fun buf len start t ht hl he hg => Sonic.Proofs.NumberAll.parseNumber_correct' buf len start t ht hl he hg)
+    (fun buf len start t ht hl he hg => Sonic.Proofs.NumberAll.parseNumber_correct buf len start t ht hl he hg)
     (fun buf len start t ht _ _ => by
       rcases Sonic.Proofs.NumberAll.parseNumber_shape buf len start t ht with ⟨v, p, h⟩ | h
       · rw [h]; rfl
@@ -204,7 +224,13 @@ theorem numberFacts : NumberFacts :=
 
 /-- **`NumberOK bs` for every text whose written exponents are below 100000 or whose number tokens are short** — no
     assumption about the number model is left -/
-theorem numberOK_of_exp {bs : List Nat} (hexp : ExpSmall bs) : NumberOK bs := numberOK_of_facts numberFacts hexp
+theorem numberOK_of_exp {bs : List Nat} (hexp : ExpSmall bs) : NumberOK bs :=
+  numberOK_of_facts numberFacts (expOK_of_small hexp)
+
+/-- **`NumberOK bs` for every text shorter than `2^32` bytes**: no hypothesis about numbers is left (known finding F6
+    is fixed in the code) -/
+theorem numberOK_all {bs : List Nat} (hL : bs.length < 2 ^ 32) : NumberOK bs :=
+  numberOK_of_facts numberFacts (expOK_of_length hL)
 
 /-- **Every text of at most 9600 bytes satisfies `ExpSmall`**, so for such texts the parser theorems hold
     unconditionally -/
